@@ -340,20 +340,33 @@ def mut_c12_self(run):
 
 
 def mut_c12_noevict(run):
-    """Keep an evicted member in the table."""
+    """Keep in the table a member that failed a request of a live, uncancelled user lookup."""
     if "filterno" not in run[0]:
         return None
-    prev = None
+    live = False
+    closed = False
+    last_q = None
     for i, ev in enumerate(run):
-        if ev["e"] == "Q":
-            if prev is not None:
-                gone = set(run[prev]["rt"]) - set(ev["rt"])
-                between = run[prev:i]
-                if gone and any(x["e"] == "Deliver" and x.get("out") == "fail" and x.get("p") in gone and x.get("cls") != "refresh" for x in between):
-                    r = copy.deepcopy(run)
-                    r[i]["rt"] = sorted(set(r[i]["rt"]) | gone)
-                    return r
-            prev = i
+        e = ev["e"]
+        if e == "Ext":
+            if ev["kind"] == "lookup":
+                live = True
+            elif ev["kind"] == "cancel":
+                live = False
+            elif ev["kind"] == "close":
+                closed = True
+        elif e in ("LTerm", "LookupEnd"):
+            live = False
+        elif e == "Q":
+            last_q = i
+        elif e == "Deliver" and live and not closed and ev.get("out") == "fail" and ev.get("cls") == "lookup" \
+                and last_q is not None and ev["p"] in run[last_q]["rt"]:
+            nq = next((j for j in range(i + 1, len(run)) if run[j]["e"] == "Q"), None)
+            if nq is None or ev["p"] in run[nq]["rt"]:
+                return None
+            r = copy.deepcopy(run)
+            r[nq]["rt"] = sorted(set(r[nq]["rt"]) | {ev["p"]})
+            return r
     return None
 
 
@@ -388,8 +401,8 @@ def selftest_mutations(prop, drv, trace_path):
         for run in runs:
             m = fn(run)
             if m is not None:
-                out.append(m)
+                out.append((fn.__name__, m))
                 got += 1
-                if got >= 3:
+                if got >= 4:
                     break
     return out
